@@ -101,6 +101,9 @@ impl Case {
         disk.add_file("/w/lib/a.asm", SENTINEL_ASM.to_vec());
         disk.add_file("/w/data.bin", SENTINEL_BIN.to_vec());
         disk.add_file("/etc/passwd", SENTINEL_BIN.to_vec());
+        // empty directories a non-canonical root spelling can pass through
+        disk.mkdir_p(&format!("{}/build", PROJ));
+        disk.mkdir_p(&format!("{}/sub", PROJ));
         // (the files of a real `<std>` directory are ordinary case files,
         // added by the generator, so the model knows them)
         for d in &self.data {
@@ -216,8 +219,12 @@ pub fn draw_spelling(rng: &mut Rng, from: &str, target: &str, is_data: bool, std
     let ext = if is_data { "bin" } else { "asm" };
     // `clean` cases use only spellings the property requires to work, so
     // that deep graphs (chains, diamonds, cycles, #once) are actually expanded
-    let style = if clean { *rng.pick(&[0usize, 0, 0, 0, 30, 38, 46, 54, 60, 74]) } else { rng.below(100) };
+    let style = if clean { *rng.pick(&[0usize, 0, 0, 0, 30, 38, 46, 54, 60, 74, 100, 101, 102]) } else { rng.below(104) };
     match style {
+        100 => format!(".//{}", rel),
+        101 => format!("././/{}", rel),
+        102 => rel.replacen('/', "//", 1),
+        103 => format!("./{}", rel.replacen('/', "/./", 1)),
         0..=29 => rel,
         30..=37 => format!("./{}", rel),
         38..=45 => format!("{}/../{}", rng.pick(&["x", "lib", "nosuchdir", "a.asm", ".."]).replace("..", "sub"), rel),
@@ -397,6 +404,9 @@ pub fn draw_case(rng: &mut Rng) -> Case {
     let mut roots = vec![files[0].path.clone()];
     match rng.below(20) {
         0 => roots[0] = format!("./{}", files[0].path),
+        3 | 4 | 5 => roots[0] = format!("build/../{}", files[0].path),
+        6 => roots[0] = format!("sub/../build/../{}", files[0].path),
+        7 => roots[0] = files[0].path.replacen('/', "//", 1),
         1 if nsrc > 1 => roots.push(files[1].path.clone()),
         2 if nsrc > 1 => {
             let second = files[rng.below(nsrc)].path.clone();
